@@ -17,12 +17,13 @@ func Spec() ev.Spec {
 
 func body(r *ev.Run) {
 	r.Rule("a peer-book sequence is non-trivial if it contains at least one refusal (banned / per-host / total) and at least one done of an admitted peer; " +
+		"re-ban cases: a host is banned (3 s), the ban elapses with no connection attempt of that host, a peer of the host connected since before gets it banned again, and a newcomer of that host asks for admission at once; " +
 		"a connection-manager scenario is non-trivial if at least one dial was refused and at least one Disconnect/Remove was issued; " +
 		"distinct = distinct (flavour, length bucket, set of refusal reasons and limit states reached) resp. (flavour, target, refusal rate, ban configuration, rounds)")
 	r.Assume(
 		"peer book: the three handlers are called from one goroutine on a fresh peerState through the verif hook (as peerHandler does); peers are real serverPeers after a real version handshake over net.Pipe with a scripted remote end; the message listeners (OnVersion → AddPeer, sync manager) are not installed — admission is driven by the harness",
 		fmt.Sprintf("limits read from config: MaxPeers=%d MaxPeersPerIP=%d; weakest reading of the per-host limit: persistent peers are exempt from the per-host count (states where a host exceeds the limit when persistent peers are counted are reported as an informational counter only)", config.MaxPeers, config.MaxPeersPerIP),
-		"ban timing: the system under test reads the wall clock; 'still banned' is asserted with a 1 h ban only, 'ban elapsed' with a 1 ms ban followed by a 50 ms pause — never near the threshold",
+		"ban timing: the system under test reads the wall clock; 'still banned' is asserted with a 1 h ban only, 'ban elapsed' with a 1 ms ban followed by a 50 ms pause — never near the threshold; the re-ban cases use a 3 s ban: 'elapsed' after 3.5 s, 'banned again' only when the admission verdict came less than 1.5 s after the second ban (else inconclusive)",
 		"address manager (monitor 3): seeded sequences of AddAddresses/Attempt/Good/Connected/BanAddress/GetAddress on the real addrmgr; a GetAddress call that has not returned after 3 s + 25 s is reported (it spins under the manager's lock)",
 		"connection manager: bounded progress — 'stopped dialling' means no Dial/GetNewAddress/OnConnection/Close activity for 200 retry intervals (1 ms each); a miss is only reported after a confirming re-run with a 5x longer window; Remove()d connections are not expected to be replaced; permanent (backoff) requests are not exercised",
 	)
@@ -37,6 +38,11 @@ func body(r *ev.Run) {
 		id := fmt.Sprintf("book/%05d", i)
 		i := i
 		r.Do(id, func() { runBookCase(r, id, i) })
+	}
+	for i := 0; i < r.Pick(16, 160); i++ {
+		id := fmt.Sprintf("reban/%05d", i)
+		i := i
+		r.Do(id, func() { runRebanCase(r, id, i) })
 	}
 	for i := 0; i < nCM; i++ {
 		id := fmt.Sprintf("cm/%05d", i)
@@ -55,6 +61,7 @@ func body(r *ev.Run) {
 	r.Require("book_events_done", 500)
 	r.Require("book_events_ban", 50)
 	r.Require("book_refused_banned", 20)
+	r.Require("book_refused_after_second_ban", 8)
 	r.Require("book_refused_perhost", 50)
 	r.Require("book_refused_total", 10)
 	r.Require("book_readmitted_after_ban_elapsed", 10)
